@@ -198,3 +198,183 @@ Proof.
 Qed.
 Theorem roundtrip_stream ps : Forall pkt_ok ps -> decode_all (stream ps) = Some ps.
 Proof. intros H. unfold decode_all. apply decode_stream_stream; [exact H|apply length_stream]. Qed.
+
+(* ---------- outputs ---------- *)
+Lemma wire_of_app a b : wire_of (a ++ b) = wire_of a ++ wire_of b.
+Proof. unfold wire_of. rewrite map_app, concat_app. reflexivity. Qed.
+Lemma clean_app a b : clean (a ++ b) <-> clean a /\ clean b.
+Proof. unfold clean. rewrite forallb_app, andb_true_iff. reflexivity. Qed.
+Lemma clean_nil : clean []. Proof. reflexivity. Qed.
+Lemma not_clean o : ~ clean o -> In HardErr o \/ In SendBufExceeded o \/ In Restart o.
+Proof.
+  unfold clean. induction o as [|x o IH]; intros H; [exfalso; apply H; reflexivity|].
+  cbn [forallb] in H. destruct x; cbn [is_report negb andb] in H;
+    try (destruct (IH H) as [A|[A|A]]; [left|right; left|right; right]; right; exact A).
+  - left; left; reflexivity.
+  - right; left; left; reflexivity.
+  - right; right; left; reflexivity.
+Qed.
+
+(* ---------- the send shim ---------- *)
+Lemma append_buffer_spec eb chunk eb' o : append_buffer eb chunk = (eb', o) ->
+  (o = [] /\ eb' = eb ++ chunk /\ (0 < len chunk -> len eb + len chunk <= SEND_BUFFER)) \/
+  (o = [SendBufExceeded] /\ eb' = eb /\ SEND_BUFFER < len eb + len chunk).
+Proof.
+  unfold append_buffer. intros H.
+  destruct (0 <? len chunk) eqn:E.
+  - destruct (SEND_BUFFER <? len eb + len chunk) eqn:E2; inversion H; subst.
+    + right. apply Z.ltb_lt in E2. auto.
+    + left. apply Z.ltb_ge in E2. auto.
+  - inversion H; subst. left. apply ltb_len_false in E. subst chunk.
+    repeat split; try reflexivity. intros X. change (len (@nil Z)) with 0 in X. lia.
+Qed.
+
+(* the retry never loses anything, whatever the result *)
+Lemma retry_spec eb rs eb1 rs1 o1 : retry eb rs = (eb1, rs1, o1) ->
+  wire_of o1 ++ eb1 = eb /\ len eb1 <= len eb /\ ~ In SendBufExceeded o1 /\ ~ In Restart o1.
+Proof.
+  unfold retry. intros H.
+  destruct (0 <? len eb) eqn:E.
+  - destruct (next rs) as [r rs']. destruct (classify r); inversion H; subst; cbn [wire_of map concat app In];
+      rewrite ?app_nil_r, ?len_nil; pose proof (len_nonneg eb); repeat split; try lia; intuition congruence.
+  - inversion H; subst. cbn. repeat split; try lia; intuition.
+Qed.
+
+Lemma send_or_buffer_spec eb chunk rs eb2 rs2 o2 : send_or_buffer eb chunk rs = (eb2, rs2, o2) ->
+  (clean o2 -> wire_of o2 ++ eb2 = eb ++ chunk) /\ Subseq (wire_of o2 ++ eb2) (eb ++ chunk) /\ ~ In Restart o2 /\
+  (len eb <= SEND_BUFFER -> len chunk <= SEND_BUFFER -> len eb2 <= SEND_BUFFER).
+Proof.
+  unfold send_or_buffer. intros H.
+  assert (AB : forall e c e' o, append_buffer e c = (e', o) ->
+     (clean o -> wire_of o ++ e' = e ++ c) /\ Subseq (wire_of o ++ e') (e ++ c) /\ ~ In Restart o /\
+     (len e <= SEND_BUFFER -> len e' <= SEND_BUFFER \/ (c = [] /\ e' = e))).
+  { intros e c e' o A. apply append_buffer_spec in A. destruct A as [(-> & -> & L)|(-> & -> & L)]; cbn [wire_of map concat app].
+    - repeat split; auto using Subseq_refl. intros. destruct (0 <? len c) eqn:Ec.
+      + left. apply Z.ltb_lt in Ec. rewrite len_app. auto.
+      + right. apply ltb_len_false in Ec. subst c. rewrite app_nil_r. auto.
+    - repeat split.
+      + intros Cn; discriminate Cn.
+      + rewrite <- (app_nil_r e) at 1. apply Subseq_app; [apply Subseq_refl|constructor].
+      + intros [X|[]]; discriminate X.
+      + auto. }
+  destruct (0 <? len eb) eqn:E.
+  - destruct (append_buffer eb chunk) as [e' o] eqn:A. inversion H; subst.
+    destruct (AB _ _ _ _ A) as (A1 & A2 & A3 & A4). repeat split; auto.
+    intros L1 L2. destruct (A4 L1) as [X|(-> & ->)]; auto.
+  - apply ltb_len_false in E. subst eb.
+    destruct (0 <? len chunk) eqn:Ec.
+    + destruct (next rs) as [r rs']. destruct (classify r).
+      * inversion H; subst. cbn [wire_of map concat app]. rewrite !app_nil_r. repeat split; auto using Subseq_refl.
+        intros [X|[]]; discriminate X.
+      * destruct (append_buffer [] chunk) as [e' o] eqn:A. inversion H; subst.
+        destruct (AB _ _ _ _ A) as (A1 & A2 & A3 & A4). repeat split; auto.
+        intros L1 L2. apply append_buffer_spec in A. destruct A as [(-> & -> & L)|(-> & -> & L)]; auto.
+      * inversion H; subst. cbn [wire_of map concat app]. repeat split.
+        -- intros Cn; discriminate Cn.
+        -- constructor.
+        -- intros [X|[]]; discriminate X.
+        -- auto.
+    + apply ltb_len_false in Ec. subst chunk. inversion H; subst. cbn. repeat split; auto using Subseq_refl.
+Qed.
+
+Lemma data_write_spec eb chunk rs eb2 rs2 o : data_write eb chunk rs = (eb2, rs2, o) ->
+  (clean o -> wire_of o ++ eb2 = eb ++ chunk) /\ Subseq (wire_of o ++ eb2) (eb ++ chunk) /\ ~ In Restart o /\
+  (len eb <= SEND_BUFFER -> len chunk <= SEND_BUFFER -> len eb2 <= SEND_BUFFER).
+Proof.
+  unfold data_write. intros H.
+  destruct (retry eb rs) as [[eb1 rs1] o1] eqn:R.
+  destruct (send_or_buffer eb1 chunk rs1) as [[e2 r2] o2] eqn:S.
+  inversion H; subst.
+  apply retry_spec in R. destruct R as (R1 & R2 & R3 & R4).
+  apply send_or_buffer_spec in S. destruct S as (S1 & S2 & S3 & S4).
+  rewrite wire_of_app, <- app_assoc. repeat split.
+  - intros Cn. apply clean_app in Cn. rewrite (S1 (proj2 Cn)), app_assoc, R1. reflexivity.
+  - rewrite <- R1 at 2. rewrite <- app_assoc. apply Subseq_app; [apply Subseq_refl|exact S2].
+  - intros I. apply in_app_or in I. tauto.
+  - intros L1 L2. apply S4; lia.
+Qed.
+
+(* flush at the top of supla_esp_devconn_iterate: data_write(NULL, 0) *)
+Lemma flush_spec eb rs eb1 rs1 o1 : data_write eb [] rs = (eb1, rs1, o1) ->
+  wire_of o1 ++ eb1 = eb /\ len eb1 <= len eb /\ ~ In SendBufExceeded o1 /\ ~ In Restart o1.
+Proof.
+  unfold data_write. intros H.
+  destruct (retry eb rs) as [[e1 r1] oo] eqn:R.
+  assert (S : send_or_buffer e1 [] r1 = (e1, r1, [])).
+  { unfold send_or_buffer, append_buffer. rewrite len_nil. cbn [Z.ltb Z.compare]. destruct (0 <? len e1); reflexivity. }
+  rewrite S in H. inversion H; subst. rewrite app_nil_r. apply retry_spec in R. exact R.
+Qed.
+
+(* ---------- proto out buffer ---------- *)
+Definition obuf_ok (b : obuf) : Prop := 0 <= osize b < BUFFER_MAX /\ len (odata b) <= osize b.
+
+Lemma oappend_data b c b' : oappend b c = Some b' -> odata b' = odata b ++ c.
+Proof.
+  unfold oappend. intros H.
+  destruct (BUFFER_MAX <=? _); [discriminate|]. inversion H; subst. reflexivity.
+Qed.
+(* the buffer overflows exactly when the bytes do not fit below BUFFER_MAX_SIZE *)
+Lemma oappend_spec b c : obuf_ok b -> len c < 1073741824 ->
+  match oappend b c with
+  | None => BUFFER_MAX <= len (odata b) + len c
+  | Some b' => obuf_ok b' /\ odata b' = odata b ++ c /\ len (odata b) + len c < BUFFER_MAX
+  end.
+Proof.
+  intros (H1 & H2) Hc. pose proof CF as C. pose proof (cf_bufmin C). pose proof (cf_bufmax C).
+  pose proof (len_nonneg c). pose proof (len_nonneg (odata b)).
+  unfold oappend.
+  set (size0 := if osize b <? BUFFER_MIN then BUFFER_MIN else osize b).
+  assert (S0 : osize b <= size0 < BUFFER_MAX /\ BUFFER_MIN <= size0).
+  { unfold size0. destruct (osize b <? BUFFER_MIN) eqn:E; [apply Z.ltb_lt in E|apply Z.ltb_ge in E]; lia. }
+  rewrite (u32_small (size0 - len (odata b))) by lia.
+  destruct (size0 - len (odata b) <? len c) eqn:E; [apply Z.ltb_lt in E|apply Z.ltb_ge in E].
+  - rewrite (u32_small (len c - _)) by lia. rewrite u32_small by lia.
+    replace (size0 + (len c - (size0 - len (odata b)))) with (len (odata b) + len c) by lia.
+    destruct (BUFFER_MAX <=? len (odata b) + len c) eqn:E2; [apply Z.leb_le in E2|apply Z.leb_gt in E2].
+    + exact E2.
+    + cbn [osize odata]. unfold obuf_ok. cbn [osize odata]. rewrite len_app. repeat split; lia.
+  - destruct (BUFFER_MAX <=? size0) eqn:E2; [apply Z.leb_le in E2; lia|].
+    unfold obuf_ok. cbn [osize odata]. rewrite len_app. repeat split; lia.
+Qed.
+
+Lemma opop_spec b n b' c : opop b n = (b', c) -> 0 < n ->
+  c ++ odata b' = odata b /\ len c <= n /\ (0 < len (odata b) -> 0 < len c) /\ (obuf_ok b -> obuf_ok b').
+Proof.
+  unfold opop. intros H Hn. pose proof (len_nonneg (odata b)) as H0.
+  destruct (len (odata b) <=? 0) eqn:E; cbn [orb] in H.
+  - inversion H; subst. apply Z.leb_le in E. cbn [app]. rewrite len_nil. repeat split; auto; lia.
+  - apply Z.leb_gt in E. destruct (n =? 0) eqn:En; [apply Z.eqb_eq in En; lia|].
+    inversion H; subst; clear H. cbn [odata osize].
+    set (k := if len (odata b) <? n then len (odata b) else n).
+    assert (K : 0 < k <= n /\ k <= len (odata b)).
+    { unfold k. destruct (len (odata b) <? n) eqn:E2; [apply Z.ltb_lt in E2|apply Z.ltb_ge in E2]; lia. }
+    repeat split.
+    + apply take_drop.
+    + rewrite len_take by lia. lia.
+    + intros _. rewrite len_take by lia. lia.
+    + intros (B1 & B2). pose proof (cf_bufmin CF). unfold obuf_ok. cbn [osize odata].
+      rewrite len_drop by lia.
+      destruct (Z.max 0 (len (odata b) - k) <? osize b) eqn:E3; [apply Z.ltb_lt in E3|apply Z.ltb_ge in E3].
+      * destruct (Z.max 0 (len (odata b) - k) <? BUFFER_MIN) eqn:E4; [apply Z.ltb_lt in E4|apply Z.ltb_ge in E4]; lia.
+      * lia.
+Qed.
+
+Lemma out_append_spec silent b p b' r : out_append silent b p = (b', r) ->
+  match r with
+  | A_TRUE => odata b' = odata b ++ encode p
+  | A_FALSE => silent = true /\ b' = b
+  | A_ERROR => Subseq (odata b') (odata b ++ encode p)
+  end.
+Proof.
+  unfold out_append. intros H.
+  assert (E0 : Subseq (odata b) (odata b ++ encode p)).
+  { rewrite <- (app_nil_r (odata b)) at 1. apply Subseq_app; [apply Subseq_refl|constructor]. }
+  destruct (SDP_SIZE <? _); [inversion H; subst; exact E0|].
+  destruct (oappend b (body p)) as [b1|] eqn:A1.
+  - apply oappend_data in A1.
+    destruct (oappend b1 TAG) as [b2|] eqn:A2; inversion H; subst.
+    + apply oappend_data in A2. rewrite A2, A1. unfold encode. rewrite app_assoc. reflexivity.
+    + rewrite A1. unfold encode. apply Subseq_app; [apply Subseq_refl|].
+      rewrite <- (app_nil_r (body p)) at 1. apply Subseq_app; [apply Subseq_refl|constructor].
+  - destruct silent; inversion H; subst; auto.
+Qed.
